@@ -61,11 +61,12 @@ fn type_list(t: &mut Tape, al: gen::Alpha, max: usize) -> Vec<u32> {
 
 fn pipeline(t: &mut Tape, ctx: &mut Ctx) -> CheckResult {
     ctx.class("group:pipeline");
-    let sz = gen::small_sizes();
+    // medium cases start from (and combine with) diagrams of the medium sizes
+    let sz = if ctx.medium { ctx.sizes } else { gen::small_sizes() };
     let al = gen::alpha(t, &ctx.sizes);
     let mut log = String::new();
     // ---- starting value and its promised type
-    let (mut cur, mut a, mut b): (sv::SOH, Vec<u32>, Vec<u32>) = match t.choice(7) {
+    let (mut cur, mut a, mut b): (sv::SOH, Vec<u32>, Vec<u32>) = match if ctx.medium && t.chance(2, 3) { 6 } else { t.choice(7) } {
         0 => {
             let a = type_list(t, al, 3);
             log.push_str(&format!("identity({:?})", a));
@@ -127,11 +128,11 @@ fn pipeline(t: &mut Tape, ctx: &mut Ctx) -> CheckResult {
     let depth = t.range(1, if ctx.tier == Tier::Quick { 4 } else { 6 });
     let mut steps_done = 0;
     for _ in 0..depth {
-        if cur_d.nodes.len() > 40 {
+        if cur_d.nodes.len() > if ctx.medium { 600 } else { 40 } {
             break; // keep sizes bounded
         }
         let mut what: String;
-        match t.choice(17) {
+        match if ctx.medium && t.chance(1, 4) { 14 } else { t.choice(17) } {
             0 => {
                 let tl = type_list(t, al, 3);
                 let g = gen::diagram_with_boundary(t, &sz, al, &b, &tl, ctx);
